@@ -135,6 +135,20 @@ class Resolver:
             last = cn.split(".")[-1]
             if cn in ("pathlib.Path", "Path", "str", "os.fspath", "pathlib.PurePath") and len(e.args) == 1:
                 return self.resolve(e.args[0], fn, cls, binds)
+            # Path(a, b, ...) / a.joinpath(b, ...) / os.path.join(a, b, ...): the same as a / b / ...
+            parts = None
+            if cn in ("pathlib.Path", "Path", "pathlib.PurePath", "os.path.join") and len(e.args) > 1 and not e.keywords:
+                parts = list(e.args)
+            elif last == "joinpath" and isinstance(e.func, ast.Attribute) and e.args and not e.keywords:
+                parts = [e.func.value] + list(e.args)
+            if parts is not None and not any(isinstance(a, ast.Starred) for a in parts):
+                acc = self.resolve(parts[0], fn, cls, binds)
+                for a in parts[1:]:
+                    node = ast.BinOp(left=parts[0], op=ast.Div(), right=a)
+                    acc = self._div(acc, self.resolve(a, fn, cls, binds), node)
+                    if acc.kind == "UNSAFE":
+                        return acc
+                return acc
             if cn in SAFE_COMPONENT_CALLS:
                 return Prov("COMP", why=f"{cn}(..)")
             if last in SAFE_COMPONENT_CALLS and isinstance(e.func, ast.Attribute):
@@ -303,6 +317,25 @@ class Resolver:
                 if p.kind == "UNSAFE":
                     return p
             return Prov("COMP", why="one of " + ",".join(x.value for x in it.elts))
+        # a module-level / class-level constant sequence of literals, referred to by name
+        if isinstance(it, (ast.Name, ast.Attribute)):
+            val = PyModel._UNKNOWN
+            if isinstance(it, ast.Name) and fn is not None:
+                val = self.py.module_env(self.py.module_of(fn)).get(it.id, PyModel._UNKNOWN)
+            elif isinstance(it, ast.Attribute) and isinstance(it.value, ast.Name) and it.value.id in ("self", "cls") and cls:
+                for c in self.py.mro(cls):
+                    v = self.py.const_value(c, it.attr) if c in self.py.classes else PyModel._UNKNOWN
+                    if v is not PyModel._UNKNOWN:
+                        val = v
+                        break
+            elif isinstance(it, ast.Attribute) and isinstance(it.value, ast.Name) and it.value.id in self.py.classes:
+                val = self.py.const_value(it.value.id, it.attr)
+            if isinstance(val, (tuple, list)) and val and all(isinstance(x, str) for x in val):
+                for x in val:
+                    p = self._lit(x)
+                    if p.kind == "UNSAFE":
+                        return p
+                return Prov("COMP", why="one of " + ",".join(val))
         if isinstance(it, ast.Call) and call_name(it).split(".")[-1] in ("rglob", "glob", "iterdir"):
             base = self.resolve(it.func.value, fn, cls, binds)
             if base.kind == "PATH":
@@ -330,11 +363,12 @@ class Resolver:
                             call_name(f.value) == "super":
                         out.append((c, 1))
             return out
+        static = any(ast.unparse(d) in ("staticmethod",) for d in getattr(fn, "decorator_list", []))
         for c in self._calls_by_name.get(name, []):
             if py.enclosing_function(c) is fn and not cls:
                 continue
             if isinstance(c.func, ast.Attribute):
-                out.append((c, 1 if cls else 0))
+                out.append((c, 0 if static else (1 if cls else 0)))
             elif isinstance(c.func, ast.Name):
                 out.append((c, 0 if not cls else 1))
         return out
